@@ -82,7 +82,7 @@ def run(tier, seed):
         early_q = [p for p in early if p[0] in ('fe_early_impulse_4_fact_class',)]
         frozen = [p for p in pressure if p[0].startswith('fe_frozen')]
         endfrozen = [p for p in pressure if p[0].startswith('fe_endfrozen')]
-        scripted = ((slack[:2] + line[:1] + early_q + frozen[:1] + endfrozen[:1]) if tier == 'quick' else (slack + line[:4] + early[::3] + frozen + endfrozen)) + [p for p in problems if p[0].startswith('execution')][:1 if tier == 'quick' else 3]
+        scripted = ((slack[:2] + line[:1] + early_q + frozen[:1] + endfrozen[:2]) if tier == 'quick' else (slack + line[:4] + early[::3] + frozen + endfrozen)) + [p for p in problems if p[0].startswith('execution')][:1 if tier == 'quick' else 3]
         for name, files in scripted:
             k = 0
             for sd in itertools.product((0, 1, 2), repeat=3):
